@@ -175,6 +175,10 @@ def check(run, replay=None):
     if not B.check_layout(run.prog):
         run.inconclusive.append('data layout differs')
         return
+    lm = B.layout_mismatch(run.prog, B.SEARCH_LAYOUT)
+    if lm:
+        run.inconclusive.append('data layout differs from what the harness encodes: %s' % ', '.join(lm))
+        return
     run.extra['explanation'] = __doc__
     N = 2      # three generated moves with a symbolic stored move did not finish in 40 min (path split per candidate); stated bound
     jobs = [('AB', n) for n in range(1, N + 1)] + [('R', n) for n in range(1, N + 1)]
